@@ -14,6 +14,12 @@ CLAIMS = {
         "Trusted: the frozen table of filesystem-mutating primitives; resolution of `generator.gen/register_checks` by unique method name over the CodeGenerator hierarchy; plug-ins = plugins/*; Python semantics of @catch (read from fcp.maybe.catch by C11's rule).",
         "DESIGN.md §4 C10",
     ),
+    "C11": (
+        "exception-escape analysis over the resolved call graph (try/except coverage, @catch frames, lark VisitError re-raise), dominance of add_source over parse, def-use flow of UnexpectedEOF positions",
+        "Structural: from get_fcp/get_fcp_from_string, no UnexpectedCharacters/UnexpectedEOF (Lark.parse), VisitError (Transformer.transform, which wraps every semantic-action exception) or attempt()/unwrap() propagation exception can reach the public entry uncaught on any call path; error entries have the shape the renderer unpacks; the cited source is registered before the parse under the cited key; lark's -1 EOF position never reaches a MetaData. Covers every input string because it is a property of handler placement, not of inputs.",
+        "Trusted: lark's exception contract (queried from the installed library's class hierarchy; which entry point raises what is a frozen table); Earley termination; implicit raisers outside the table (e.g. MemoryError) ignored.",
+        "DESIGN.md §4 C11",
+    ),
 }
 
 NOT_BUILT = "check not built yet in this session (see DESIGN.md §7 build order); not claimed until it exists"
